@@ -12,7 +12,7 @@ PROPS = ["C12"]
 MANIFEST = {
     "C12": dict(
         technique="Lean 4 proof: two-stage implementation (rewrite to an fmt string + slot table, then a model of fmt's vformat and string specs) equals direct substitution, by induction over the pattern; loop/`splitOn` equivalence for multi-line; extraction of the attribute tables; differential correspondence on the real PatternFormatter and backend with an independent reference oracle",
-        text="Machine-checked proof (Lean 4) that for every pattern that is a list of literal chunks and %(attr[:spec]) fields (each attribute at most once, specs [[fill]align][width][.precision], any literal text free of '%(' and of braces) and every attribute valuation, the model of PatternFormatter (in-place rewrite to '{:spec}', order_index slots, lazily filled arguments, fmt's parse_format_string / parse_format_specs / write_padded for strings) returns the direct substitution plus a newline; that this holds for every call of a sequence of calls through one formatter instance (the _args member persists between calls: the outcome of a call is proved independent of the calls handled before, so %(time) is the timestamp formatter's text for the statement's own timestamp — the first call, repeated timestamps and timestamp 0 included; the variant that refreshes the time slot only when the timestamp differs from a remembered one initialised to 0 is refuted by a decided witness); that the constructor accepts every such pattern and throws exactly at the first field with an unknown name or without a closing parenthesis; that the multi-line loop yields msg.splitOn('\\n') after removing at most one trailing newline (option on, no named args) and one statement otherwise; that MacroMetadata's file name / line / full path / short location are the expected pieces of 'dir/base:line'; and that the runtime-metadata split recovers message, file:line and function. Literal braces (finding F7) are outside the theorem: the negation of the unrestricted statement is proved with the witness '%(message) {lit}'. Tied to the code by extracting the five attribute tables, 30 structural facts, the default pattern and the separator and re-proving by `decide` that they are the model's, and by running the real PatternFormatter / ManualBackendWorker on generated patterns, values and messages (malformed stream included; timestamp sequences 0,0,t,0 / t,t,t' / decreasing through one formatter with %(time) with and without width/alignment, every call observed as the last call of a fresh formatter) and diffing every returned line, error kind and sink statement against the model, while an independent C++ reference substitution judges the property itself.",
+        text="Machine-checked proof (Lean 4) that for every pattern that is a list of literal chunks and %(attr[:spec]) fields (each attribute at most once, specs [[fill]align][width][.precision], any literal text free of '%(' and of braces) and every attribute valuation, the model of PatternFormatter (in-place rewrite to '{:spec}', order_index slots, lazily filled arguments, fmt's parse_format_string / parse_format_specs / write_padded for strings) returns the direct substitution plus a newline; that this holds for every call of a sequence of calls through one formatter instance (the _args member persists between calls: the outcome of a call is proved independent of the calls handled before, so %(time) is the timestamp formatter's text for the statement's own timestamp — the first call, repeated timestamps and timestamp 0 included; the variant that refreshes the time slot only when the timestamp differs from a remembered one initialised to 0 is refuted by a decided witness); that the constructor accepts every such pattern and throws exactly at the first field with an unknown name or without a closing parenthesis; that the multi-line loop yields msg.splitOn('\\n') after removing at most one trailing newline (option on, no named args) and one statement otherwise; that the pattern a sink's line is formatted with is the sink's override pattern if it has one, else its logger's, in every state of the backend's formatter cache (which loggers were dispatched first, which loggers share one formatter because their options are equal) — the variant that creates the override formatters only where a logger's formatter is created is refuted by a decided two-logger history; that MacroMetadata's file name / line / full path / short location are the expected pieces of 'dir/base:line'; and that the runtime-metadata split recovers message, file:line and function. Literal braces (finding F7) are outside the theorem: the negation of the unrestricted statement is proved with the witness '%(message) {lit}'. Tied to the code by extracting the five attribute tables, 30 structural facts, the default pattern and the separator and re-proving by `decide` that they are the model's, and by running the real PatternFormatter / ManualBackendWorker on generated patterns, values and messages (malformed stream included; timestamp sequences 0,0,t,0 / t,t,t' / decreasing through one formatter with %(time) with and without width/alignment, every call observed as the last call of a fresh formatter; cases with two or three loggers with equal and different options, sinks with and without override pattern, some attached to two loggers, calls in every order of first use) and diffing every returned line, error kind and sink statement against the model, while an independent C++ reference substitution judges the property itself.",
         note="fmt's width is modelled for ASCII only; spec types s/?/p and dynamic width are outside the modelled subset (reported as unsupported, not compared); the empty pattern formats to the empty string (documented special case); with named arguments a message is never split (pinned by quill's own tests). Finding F7 (brace in literal pattern text) is a known-finding candidate.",
         ref="§5 C12, §7 F7"),
 }
@@ -29,6 +29,8 @@ THEOREMS = [
     "Pattern.C12_call_independent_of_earlier_calls", "Pattern.C12_every_call_eq_substitution_partial",
     "Pattern.C12_time_function_of_timestamp", "Pattern.C12_first_call_timestamp_zero", "Pattern.C12_memoised_time_fails",
     "Pattern.fill_persist", "Pattern.run_false", "Pattern.formatCalls_eq",
+    "Pattern.C12_sink_pattern_rule", "Pattern.C12_sink_pattern_independent_of_history", "Pattern.C12_sink_lines",
+    "Pattern.C12_override_hoisted_fails", "Pattern.dispatch1_pinned", "Pattern.runHistory_pinned",
     "Pattern.parseSpec_print", "Pattern.generate_items", "Pattern.vfmt_items", "Pattern.fillArgs_get",
     "Pattern.multiLine_eq_splitOn",
     "Obligations.pattern_extraction_complete", "Obligations.pattern_enum", "Obligations.pattern_arg_names",
@@ -116,7 +118,7 @@ def process(acc, label, out, f7):
     case_lines = []
     prev_case = None
     for ln in lines:
-        if ln.startswith(("fmt ", "be ")):
+        if ln.startswith(("fmt ", "be ", "mb ")):
             case_lines.append(ln)
             prev_case = ln
             acc.cases += 1
@@ -128,6 +130,11 @@ def process(acc, label, out, f7):
             obs = ln.split(" => ")[1] if " => " in ln else ""
             if ln.startswith("fmt "):
                 if nfields >= 2 and ":" in pat and obs.startswith("line "):
+                    acc.nontrivial.add(hash(key))
+            elif ln.startswith("mb "):
+                # several loggers of which two have equal options, and a sink with an override pattern
+                lg = [x.split(":", 1)[1] for x in kv.get("loggers", "").split(",") if ":" in x]
+                if len(set(lg)) < len(lg) and re.search(r"(^|,)[01]:x", kv.get("sinks", "")):
                     acc.nontrivial.add(hash(key))
             else:
                 m = re.search(r" n=(\d+)", obs)
@@ -257,6 +264,7 @@ def run(prop, tier):
         "distinct_nontrivial": len(acc.nontrivial),
         "distinct_cases": len(acc.distinct),
         "rule": "one case = one (pattern, attribute values, timestamps of the earlier calls) triple: a freshly constructed real PatternFormatter "
+                "(or, mb, one set-up of 2-3 loggers and 1-4 sinks with a call order, non-trivial iff two loggers have equal options and a sink has an override) "
                 "handles the earlier calls (decoy values) and then the observed one; or one log call "
                 "(pattern, option, kind, message) through the real backend; non-trivial iff (fmt) the pattern has >= 2 fields, a spec and "
                 "formats to a line, or (be) the call yields >= 2 statements through a pattern with a field; distinct by full input text",
